@@ -37,7 +37,8 @@ func init() {
 		NonTrivial: func(r *sim.Result) bool { return r.Forky && r.Commits > 0 },
 		Rule:       "random adversarial case (committee, weights, leader order, Byzantine set <= f, schedule, attack strategies) from (VERIF_SEED, workload, index); non-trivial = at least two different proposals were on the wire at one height and some correct node committed; distinct = distinct schedule hash",
 		Floors:     map[string]int{"commits": 1000, "C01 agreeing commits": 500},
-		Judged:     []string{"commits", "C01 agreeing commits"}})
+		Judged:     []string{"commits", "C01 agreeing commits"},
+		Extra:      scriptedBare("C01")})
 	reg(&sim.SimCheck{Prop: "C03", Workload: "c03", Profile: advProfile(merge(noBare, map[string]int{"outsider": 15, "mutate": 35, "twistedNV": 12, "support": 20}), 500, 2),
 		QuickCases: 5000, ThoroughCases: 120000,
 		NonTrivial: func(r *sim.Result) bool { return r.Stats["C03 commits validated on a peer"] > 0 && r.Stats["delivered adversarial"] > 0 },
@@ -55,7 +56,8 @@ func init() {
 		NonTrivial: func(r *sim.Result) bool { return r.Stats["C07 prepares judged"]+r.Stats["C07 adoptions judged"] > 0 },
 		Rule:       "adversarial cases rich in forged / twisted NEW_VIEWs and bare PREPREPAREs; every PREPARE sent and every proposal stored by a correct node in a view above 0 is judged against the reference NEW_VIEW validator; non-trivial = at least one such act was judged",
 		Floors:     map[string]int{"C07 prepares judged": 500, "C07 leader proposals judged": 200, "adv forgedNV": 1000},
-		Judged:     []string{"C07 prepares judged", "C07 adoptions judged", "C07 leader proposals judged"}})
+		Judged:     []string{"C07 prepares judged", "C07 adoptions judged", "C07 leader proposals judged"},
+		Extra:      scriptedBare("C07")})
 	reg(&sim.SimCheck{Prop: "C08", Workload: "c08", Profile: advProfile(merge(noBare, map[string]int{"mutate": 60, "outsider": 15, "vcGames": 12}), 400, 2),
 		QuickCases: 5000, ThoroughCases: 100000,
 		NonTrivial: func(r *sim.Result) bool { return r.Stats["C08 must-ignore deliveries"] > 0 && r.Stats["delivered adversarial"] > 0 },
@@ -90,17 +92,59 @@ func init() {
 		NonTrivial: func(r *sim.Result) bool { return r.Stats["C05 tails starting above view 0"] > 0 },
 		Rule:       "random adversarial prefix (as C01, 300 steps, partitions, starvation, drops) then a stabilised tail: laggards synced, every in-flight message delivered before the next virtual timer (base*2^view) expires, timers in virtual-time order, adversary still active. Judged: (a) a correct node commits the height before any correct node's view exceeds vmax+2n+2; (b) if the committing view's proposal was emitted after stabilisation every correct node that stored it commits it. non-trivial = the tail started from a state above view 0",
 		Floors:     map[string]int{"C05 tails judged": 1500, "C05 tails with commit": 1500, "C05 completeness judged": 300, "C05 tails starting above view 0": 500},
-		Judged:     []string{"C05 tails judged", "C05 tails with commit", "C05 completeness judged", "C05 tails starting above view 0", "C05 completeness not judged: committing view's proposal predates stabilisation", "C05 not judged: every explored height already decided"}})
+		Judged:     []string{"C05 tails judged", "C05 tails with commit", "C05 completeness judged", "C05 tails starting above view 0", "C05 completeness not judged: committing view's proposal predates stabilisation", "C05 not judged: every explored height already decided"},
+		Extra: func(run *harness.Run) ([]harness.Finding, map[string]interface{}, []string) {
+			r := sim.ScriptHeavyMember()
+			return sim.ScriptedFindings("C05", "heavy-member", r), map[string]interface{}{"scripted_known_finding_scenario": "weights 1,7,1,1 with the three light members Byzantine and silent: the correct member holds quorum weight alone", "scripted_steps": r.Steps}, nil
+		}})
+	reg(&sim.SimCheck{Prop: "C12", Workload: "c12", Profile: func(th bool) *sim.Profile {
+		p := advProfile(merge(noBare, map[string]int{"garbage": 30, "hugeView": 20, "mutate": 50, "vcGames": 10, "crossInstance": 6, "support": 10, "badBlock": 6}), 350, 2)(th)
+		p.Tail, p.TailQuiet, p.TailProp, p.NoRejects = true, true, "C12", true
+		p.LenientValidators = true
+		return p
+	},
+		QuickCases: 4000, ThoroughCases: 80000,
+		NonTrivial: func(r *sim.Result) bool { return r.Stats["adv garbage"]+r.Stats["adv hugeView"]+r.Stats["adv mutate"] > 5 && r.Stats["C05 tails judged"] > 0 },
+		Rule:       "sim: hostile prefix (random / truncated / bit-flipped / length-corrupted bytes, extreme views and heights, empty ids and proofs, missing blocks, field mutations, replays) delivered at PRNG-chosen points to real worker loops; a panic escaping the worker, or recovered by it while handling a message the reference decoder reads completely, is a violation; then a quiet stabilised tail in which the attacked nodes must commit (bounded progress). rt: the same kinds of input through HandleConsensusMessage / ValidateBlockConsensus / GetMemberIdsFromBlockProof of a running node (race detector on): no panic reaches the supervising loops, the victim keeps committing. non-trivial (sim) = more than 5 hostile inputs and a judged tail",
+		Floors:     map[string]int{"adv garbage": 5000, "adv hugeView": 3000, "adv mutate": 10000, "C05 tails judged": 1500, "C05 tails with commit": 1500},
+		Judged:     []string{"adv garbage", "adv hugeView", "adv mutate", "delivered adversarial", "C05 tails judged", "C05 tails with commit", "C12 malformed messages dropped after a parser panic"},
+		Extra: func(run *harness.Run) ([]harness.Finding, map[string]interface{}, []string) {
+			fs, ev, inc := rtPart(run, "hostile", 32, 1200, map[string]int{"C12 hostile inputs": 2000, "C12 victims judged for progress": 16})
+			fs2, ev2, inc2 := rtPart(run, "flood", 4, 60, map[string]int{"C12 floods judged": 4})
+			ev["rt_flood"] = ev2
+			return append(fs, fs2...), ev, append(inc, inc2...)
+		}})
+	reg(&sim.SimCheck{Prop: "C13", Workload: "c13", Profile: func(th bool) *sim.Profile {
+		p := advProfile(merge(noBare, map[string]int{"support": 20, "mutate": 15}), 500, 3)(th)
+		p.CommitFailures = true
+		return p
+	},
+		QuickCases: 3000, ThoroughCases: 60000,
+		NonTrivial: func(r *sim.Result) bool { return r.Stats["C13 rounds"] > 4 && r.Commits > 0 },
+		Rule:       "sim: every message order (random adversarial schedules over 3 heights with node syncs to older / equal / newer heights and commit-callback failures): commit-callback heights and new-round-callback heights strictly increasing per node, rounds only above committed heights, sampled (height, view) lexicographically non-decreasing after every step. rt: the same oracles on the real two-goroutine runtime (race detector on) under loss / duplication / delay, 2..4 ms real election timers, commit failures, UpdateState bursts and log-keyed delays around SetHeightAndResetView / Dispose / cache consumption, with a sampler goroutine per node. non-trivial (sim) = more than 4 rounds and a commit in the case",
+		Floors:     map[string]int{"C13 rounds": 10000, "C13 samples": 500000, "commits": 3000},
+		Judged:     []string{"C13 rounds", "C13 samples", "commits"},
+		Extra: func(run *harness.Run) ([]harness.Finding, map[string]interface{}, []string) {
+			return rtPart(run, "stress", 40, 1500, map[string]int{"C13 commit callbacks judged": 1000, "C13 round callbacks judged": 1000, "C13 state samples": 50000})
+		}})
 	reg(&sim.SimCheck{Prop: "C18", Workload: "c18", Profile: advProfile(merge(noBare, map[string]int{"hugeView": 10, "vcGames": 15}), 500, 2),
 		QuickCases: 1500, ThoroughCases: 40000,
 		NonTrivial: func(r *sim.Result) bool { return r.Stats["C18 view change destinations judged"] > 3 },
 		Rule:       "(a) the real leader function tabulated next to committee[view mod n] for n=4..64 and views 0..4n, 2^k, 2^k+-1, +-70 around 2^31, 2^32, 2^63, 2^64-1 and random 64-bit views, plus 'each member leads once in n consecutive views'; (b) behaviour in sim executions: every VIEW_CHANGE a correct node sends must go to the member at position view mod n and the member at that position must collect instead of sending, NEW_VIEWs only from that member; non-trivial case = more than 3 VIEW_CHANGE destinations judged",
 		Floors:     map[string]int{"C18 view change destinations judged": 20000},
 		Judged:     []string{"C18 view change destinations judged", "adv hugeView"},
-		Extra: func(run *harness.Run) ([]harness.Finding, map[string]interface{}) {
+		Extra: func(run *harness.Run) ([]harness.Finding, map[string]interface{}, []string) {
 			fs, evals, distinct, samples := unit.CheckC18Table(run)
-			return fs, map[string]interface{}{"leader_table_evaluations": evals, "leader_table_distinct_(n,view-class,position)": len(distinct), "leader_table_samples": samples}
+			return fs, map[string]interface{}{"leader_table_evaluations": evals, "leader_table_distinct_(n,view-class,position)": len(distinct), "leader_table_samples": samples}, nil
 		}})
+}
+
+// scriptedBare reproduces the recorded bare-PREPREPARE finding (C07) and its fork (C01) deterministically.
+func scriptedBare(prop string) func(run *harness.Run) ([]harness.Finding, map[string]interface{}, []string) {
+	return func(run *harness.Run) ([]harness.Finding, map[string]interface{}, []string) {
+		r := sim.ScriptBarePreprepareFork()
+		return sim.ScriptedFindings(prop, "bare-preprepare-fork", r), map[string]interface{}{"scripted_known_finding_scenario": "4 equal members, Byzantine leader of view 1 sends a standalone PREPREPARE to two nodes that timed out of view 0 while prepared; they commit it although a third node committed the view-0 block", "scripted_steps": r.Steps}, nil
+	}
 }
 
 func merge(ms ...map[string]int) map[string]int {
